@@ -133,3 +133,15 @@ def run_cli_inprocess(path, **kw):
     finally:
         args.file.close()
     return strip_report(out.getvalue())
+
+
+class _NoLCD(KernelDG):
+    """KernelDG built by its real constructor, minus the loop-carried search (the checks that
+    only need the dependency graph and the critical path do not pay for it)"""
+
+    def check_for_loopcarried_dep(self, *a, **kw):
+        return {}
+
+
+def graph_only(kernel, parser, mm, sem, flags=False):
+    return _NoLCD(kernel, parser, mm, sem, timeout=-1, flag_dependencies=flags)
